@@ -3,7 +3,7 @@
 import numpy as np
 
 from ..core import violation, Discard, ddmin_list
-from ..gen_scenes import gen_chain_scene, gen_rod_scene, gen_contact_scene
+from ..gen_scenes import gen_chain_scene, gen_rod_scene, gen_contact_scene, add_knife_edge
 from ..scenes import build
 from ..seams import Sim
 from ..session import DYNAMIC, gen_solver, project_velocities, run_solver, solver_options, check_solution_shape, require_regular
@@ -91,6 +91,7 @@ def gen(rng, tier, index):
         # legal knob: a Newton budget so small that some step organically fails; whatever the solver then
         # returns must still consist of steps that satisfy the constraints
         solver["options"]["newton_max_iter"] = int(rng.integers(1, 4))
+    add_knife_edge(rng, scene, prob=0.35)
     return {"scene": scene, "solver": solver}
 
 
@@ -108,8 +109,9 @@ def _sig(plan):
     jt = tuple(sorted(j["type"] for j in sc["joints"]))
     loop = any(j.get("loop") for j in sc["joints"])
     moving = any((f.get("motion") is not None) for f in sc["frames"])
+    nonhol = bool(sc.get("nonholonomic"))
     rods = tuple((r["spec"]["interp"], r["spec"]["mixed"], tuple(r["spec"]["constraints"] or ()), r["spec"]["degree"]) for r in sc.get("rods", []))
-    return repr((knobs, jt, loop, moving, rods))
+    return repr((knobs, jt, loop, moving, rods, nonhol))
 
 
 def quat_norms(B, q):
@@ -230,6 +232,8 @@ def monitor(R, out, log, quat_only=False, failed_steps=()):
                 return
     log.ev("worst", name, worst["g"], worst["g_dot"], worst["mid"], worst["quat"])
     out["probes"][f"ran_{name}"] += 1
+    if getattr(B, "nonholonomic", None):
+        out["probes"]["nonholonomic_session"] += 1
     if getattr(B, "rods", None):
         out["probes"]["rod_session"] += 1
     return worst
@@ -287,7 +291,11 @@ def execute(plan, out, log):
     check_solution_shape(sol, B.system, spec["name"], out["violations"])
     if out["violations"]:
         return
-    monitor(R, out, log)
+    import warnings
+
+    with warnings.catch_warnings():
+        warnings.simplefilter("ignore")  # the harness's own evaluations; the run's warnings were captured by the simulator
+        monitor(R, out, log)
     out["nontrivial"] = (B.system.nla_g + B.system.nla_gamma) > 0 and len(sol.t) >= 10
     out["abstract"] = _sig(plan)
 
@@ -335,3 +343,5 @@ def shrink(plan):
             yield dict(plan, solver=dict(so, options=o))
     if sc.get("gravity") is not None:
         yield dict(plan, scene=dict(sc, gravity=None))
+    if sc.get("nonholonomic"):
+        yield dict(plan, scene={k: v for k, v in sc.items() if k != "nonholonomic"})
